@@ -19,6 +19,15 @@ from asphalt.core import (
 )
 from asphalt.core._context import ResourceEvent  # public class (re-exported in asphalt.core too)
 
+def make_cb(h, i):
+    """a teardown callback; every fifth one fails after it has run (the model does not care)"""
+    def cb():
+        h.cb_log.append(i)
+        if i % 5 == 4:
+            raise ValueError(f"teardown callback {i} failed")
+    return cb
+
+
 NAMES_OK = ["default", "x", "y_2", "Z9"]
 NAMES_BAD = ["", "a b", "a.b", "x-y", "x\n"]
 N_CLASSES = 4
@@ -256,7 +265,7 @@ class Env:
                 if cb == "bad":
                     kw["teardown_callback"] = 5
                 elif cb is not None:
-                    kw["teardown_callback"] = (lambda i=cb: h.cb_log.append(i))
+                    kw["teardown_callback"] = make_cb(h, cb)
                 types = op["types"]
                 if op.get("single") and len(types) == 1:
                     tarr = ty_obj(types[0])
@@ -325,7 +334,7 @@ class Env:
                 if cb == "bad":
                     ctx.add_teardown_callback(5)
                 else:
-                    ctx.add_teardown_callback(lambda i=cb: h.cb_log.append(i))
+                    ctx.add_teardown_callback(make_cb(h, cb))
                 return {"k": "OK"}
         except BaseException as e:  # noqa
             if isinstance(e, (KeyboardInterrupt, SystemExit)):
